@@ -601,6 +601,26 @@ def _closure_behind(fn, operand, depth=0):
     return None
 
 
+def _fnitem_behind(fn, operand, depth=0):
+    """name of the function a callable operand denotes when it is a function item passed by name (`update(v, Data::created,
+    Data::set_created)`): zero-sized constants all the way"""
+    k = operand.get('k')
+    if isinstance(k, dict) and k.get('fn'):
+        return k['fn']
+    p = operand.get('m') or operand.get('c')
+    if p is None or p['p'] or depth > 6:
+        return None
+    defs = [s for b in fn.blocks for s in b['stmts'] if s['k'] == 'assign' and s['lhs']['l'] == p['l'] and not s['lhs']['p']]
+    if len(defs) != 1:
+        return None
+    rv = defs[0]['rv']
+    if rv['k'] == 'use':
+        return _fnitem_behind(fn, rv['a'], depth + 1)
+    if rv['k'] == 'ref' and not rv['p']['p']:
+        return _fnitem_behind(fn, {'c': rv['p']}, depth + 1)
+    return None
+
+
 CLOSURE_CALLS = ('core::ops::function::Fn::call', 'core::ops::function::FnMut::call_mut', 'core::ops::function::FnOnce::call_once')
 
 
@@ -619,7 +639,28 @@ def direct_closure_calls(facts, known):
                     continue
                 cdef = _closure_behind(fn, t['args'][0])
                 cf = facts.fns.get(cdef) if cdef else None
-                if cf is None or cf.crate != 'fatfs' or len(cf.blocks) > MAX_BLOCKS:
+                if cf is None:
+                    # a function passed by name: the call through the Fn traits becomes a direct call of it
+                    fname = _fnitem_behind(fn, t['args'][0])
+                    ff = facts.fns.get(fname) if fname else None
+                    tup0 = t['args'][1].get('m') or t['args'][1].get('c')
+                    if ff is not None and ff.crate.startswith('fatfs') and tup0 is not None and not tup0['p']:
+                        stmts0, call_args0 = [], []
+                        for i in range(ff.argc):
+                            fn.locals.append({'ty': ff.locals[1 + i]['ty'], 'name': None})
+                            li = len(fn.locals) - 1
+                            stmts0.append({'k': 'assign', 'lhs': {'l': li, 'p': []}, 'span': t['span'],
+                                           'rv': {'k': 'use', 'a': {'m': {'l': tup0['l'], 'p': [{'f': i, 'n': str(i)}]}}}})
+                            call_args0.append({'m': {'l': li, 'p': []}})
+                        fn.blocks[bi]['stmts'].extend(stmts0)
+                        nt0 = dict(t)
+                        nt0.update({'callee': fname, 'callee_crate': 'fatfs', 'args': call_args0, 'synthetic': True, 'func': None, 'gargs': []})
+                        fn.blocks[bi]['term'] = nt0
+                        fn._succ = fn._pred = fn._dom = fn._pdom = fn._reach = None
+                        changed = True
+                        n += 1
+                    continue
+                if cf.crate != 'fatfs' or len(cf.blocks) > MAX_BLOCKS:
                     continue
                 tup = t['args'][1].get('m') or t['args'][1].get('c')
                 if tup is None or tup['p']:
